@@ -121,7 +121,14 @@ fn client_bases(tier: Tier) -> Vec<CCfg> {
     let alpha = cc::A_REPLY_UNOWED | cc::A_ABANDON | cc::A_DRAIN;
     for n in 1..=3usize {
         for mif in 1..=2usize {
-            for (fl, cap) in [(Flavour::Always, 1usize), (Flavour::Coupled, 1), (Flavour::Indep, 1)] {
+            // (Coupled, 2): a socket-like transport with room for two messages - the last
+            // cancellation is still buffered when the dispatch starts closing, so the first
+            // poll_close is Pending and the close completes (or fails: Close#2) in a later poll
+            // (seeded change C09l treated a pending close as a completed one)
+            for (fl, cap) in [(Flavour::Always, 1usize), (Flavour::Coupled, 1), (Flavour::Indep, 1), (Flavour::Coupled, 2)] {
+                if cap == 2 && (n == 3 || mif == 1) {
+                    continue;
+                }
                 for silent in 0..=1usize {
                     if silent == 1 && n == 1 {
                         continue;
@@ -140,6 +147,7 @@ fn client_bases(tier: Tier) -> Vec<CCfg> {
                         alphabet: alpha,
                         fault: None,
                         keep_root: false,
+                        abandon_by_unwind: false,
                         start_age_ms: 0,
                     };
                     out.push(mk(callers.clone()));
